@@ -46,7 +46,7 @@ static idns_t ids[NS_MAX];
 static const void *qtab[MAXW];
 
 /* ---------- pct ---------- */
-static long prio[MAXW]; static long lowprio; static long *chg; static int nchg; static long stepno; static long stall_until[MAXW]; static int just_loaded[MAXW];
+static long prio[MAXW]; static long lowprio; static long *chg; static int nchg; static long stepno; static long stall_until[MAXW]; static int just_loaded[MAXW]; static long point_cnt[128]; static int cur_point;
 
 /* ---------- virtual clock ---------- */
 static long vsec = 1000, vnsec = 0;
@@ -264,7 +264,9 @@ static int pick(int spin){
     int cand[MAXW], nc = 0;
     stepno++;
     if (nonprogress > 3L * NW) for (i = 0; i < NW; i++) stall_until[i] = 0;      /* the others need the frozen one */
-    if (!spin && stall_until[me] <= stepno && rnd() % (just_loaded[me] ? 3 : 24) == 0) stall_until[me] = stepno + 600;
+    /* ... and the less often a code location has been reached so far in this run, the likelier the freeze */
+    { long den = just_loaded[me] ? 3 : (2 + point_cnt[cur_point & 127] < 24 ? 2 + point_cnt[cur_point & 127] : 24);
+      if (!spin && stall_until[me] <= stepno && rnd() % (unsigned long)den == 0) stall_until[me] = stepno + 600; }
     just_loaded[me] = 0;
     for (i = 0; i < NW; i++) if (stall_until[i] <= stepno && !(spin && i == me)) cand[nc++] = i;
     if (nc == 0){ for (i = 0; i < NW; i++) stall_until[i] = 0; return spin ? (me + 1) % NW : me; }
@@ -290,7 +292,7 @@ static void step(int spin){
   if (next == me) return;
   pass_to(next);
 }
-void myth_verif_point(int id){ (void)id; step(0); }
+void myth_verif_point(int id){ cur_point = id; point_cnt[id & 127]++; step(0); }
 void myth_verif_spin(int id){ (void)id; step(1); }
 void myth_verif_idle(void){
   if (!armed || me < 0) return;
@@ -367,6 +369,7 @@ void vrt_arm(const vrt_opts *o, const void *main_desc){
   for (i = 0; i < NS_MAX; i++){ ids[i].n = 0; nalias[i] = 0; }
   nonprogress = 0; stepno = 0; lowprio = 0; vsec = 1000; vnsec = 0;
   for (i = 0; i < MAXW; i++) stall_until[i] = 0;
+  for (i = 0; i < 128; i++) point_cnt[i] = 0;
   if (O.strategy == VRT_STRAT_PCT){
     for (i = 0; i < NW; i++) prio[i] = i + 1;
     for (i = NW - 1; i > 0; i--){ int j = (int)(rnd() % (unsigned)(i + 1)); long t = prio[i]; prio[i] = prio[j]; prio[j] = t; }
